@@ -257,7 +257,7 @@ def run(ctx):
     ctx.count("exhaustive_strings", total["n"])
     ctx.distinct_extra += total["grammar"]
     rng = ctx.sub_rng("gen")
-    nrand = 150000 if quick else 1000000
+    nrand = 150000 if quick else 3000000
     rand = set()
     for _ in range(nrand):
         rand.add(mutate(gen_struct(rng), rng))
@@ -278,7 +278,7 @@ def run(ctx):
     ctx.count("in_grammar_total", total["grammar"])
     ctx.count("accepted_total", total["accepted"])
     ctx.count("accepted_and_printed_differently", total["normalised"])
-    sample = [s for s in rand if ref.parse(s) is not None][: (4000 if quick else 60000)]
+    sample = [s for s in rand if ref.parse(s) is not None][: (4000 if quick else 150000)]
     sample += rng.sample(rand, min(len(rand), 3000 if quick else 30000)) + edges
     sample += ["".join(t) for t in itertools.product(["1", "0", ".", "-", "a", "v", "+", "r"], repeat=4)]
     res3 = core.pmap(work_check_cli, [(ctx.bins, l) for l in core.split_even(sample, 32)])
@@ -286,7 +286,7 @@ def run(ctx):
         ctx.evaluations += r["n"]
         ctx.count("check_cli_runs", r["n"])
         total["bad"] += r["bad"]
-    bsample = rng.sample(sample, 400 if quick else 4000)
+    bsample = rng.sample(sample, 400 if quick else 12000)
     res4 = core.pmap(work_check_binary, [(ctx.bins, l) for l in core.split_even(bsample, 16)])
     for r in res4:
         ctx.evaluations += r["n"]
